@@ -58,10 +58,12 @@ def make_world(ctx, ending, idx):
             t.pop("ownstream", None)
             if not t.get("doctest"):
                 t["rebind"] = {"rebind-err": "err", "rebind-out": "out", "rebind-both": True}[ending]
-    # test code that changes the warning filters for good
+    # test code that changes the warning filters for good, or installs and removes a trace function of its own
     for t in w["tests"]:
         if rng.random() < 0.4:
             rng.choice([t["setUp"], t["body"], t["tearDown"]])["warnfilter"] = True
+        if rng.random() < 0.3 and ending not in ("interrupt", "ttd-raises-interrupt"):
+            rng.choice([t["setUp"], t["body"], t["tearDown"]])["settrace"] = True
     if ending == "chdir" and w["tests"]:
         # a test that leaves the process in another directory (relative paths of later tear-downs break)
         w["tests"][0]["body"]["chdir"] = True
@@ -93,6 +95,9 @@ def run_case(ctx, opts, ending, idx, pre_trace=False):
     if ending == "stop":
         args.append("-x")
     case = {"dir": d, "args": args, "pre_trace": pre_trace}
+    if idx % 4 == 2:
+        # the embedding program has installed traceback functions of its own before the run
+        case["pre_tb"] = True
     if "gcopt" in opts and idx % 3 == 0:
         # the flag the run asks for is already set before the run
         import gc as _gc
